@@ -211,4 +211,26 @@ def opPipeline (line : String) : String :=
     | .ok s => s
     | .error e => s!"bad-op {e}"
 
+/-- `regroup {"adapters": [...]}` → what `AdapterCutter.__init__` (index enabled) hands to `MultipleAdapters`: the entries in their new order
+    (a plain entry by the position it had in the given list; an index object by its kind, the positions of its members and the rows its
+    members get in the name table) and the origin column of the name table -/
+def opRegroup (line : String) : String :=
+  match Json.parse line with
+  | .error e => s!"bad-op json {e}"
+  | .ok j =>
+    let r : Except String String := do
+      let ads ← (← (← j.getObjVal? "adapters").getArr?).toList.mapM parseMatchable
+      let rg := regroup ads
+      let origin (k : Nat) : Json := match rg.origin[k]? with | some (some p) => (p : Json) | _ => Json.null
+      let entries := rg.ads.zipIdx.map fun (m, k) =>
+        match m with
+        | .indexed ix ids => Json.mkObj [("index", if ix.isPrefix then "prefix" else "suffix"),
+                                         ("members", Json.arr (ids.map origin).toArray),
+                                         ("names", Json.arr (ix.adapters.map (fun a => Json.str a.name)).toArray)]
+        | m => Json.mkObj [("pos", origin k), ("name", m.name)]
+      pure (Json.mkObj [("entries", Json.arr entries.toArray), ("names", Json.arr ((namesOf rg.ads).map Json.str).toArray)]).compress
+    match r with
+    | .ok s => s
+    | .error e => s!"bad-op {e}"
+
 end Driver
